@@ -64,8 +64,9 @@ class NpObject:
         return a
 
     @staticmethod
-    def array(x, dtype=None):
-        return np.array(x, dtype=object)
+    def array(x, dtype=None, order=None, copy=True, ndmin=0):
+        # (entries are symbolic: the memory order and the requested dtype have no meaning for an object array)
+        return np.array(x, dtype=object, ndmin=ndmin)
 
     @staticmethod
     def sqrt(x):
@@ -404,6 +405,9 @@ def hosvd_driver_rule(run, repo, tier):
                 if isinstance(pv_, dict) and 'svd' in pv_ and pv_.get('role') in ('u', 's', 'v'):
                     out.add((pv_['svd'], pv_['role']))
                     continue
+                if isinstance(pv_, dict) and 'qr' in pv_ and pv_.get('role') in ('q', 'r'):
+                    out.add((('qr', pv_['qr']), pv_['role']))
+                    continue
                 todo.extend(x_.parents)
                 todo.extend(x_.buf.inputs)
             return out
@@ -454,7 +458,14 @@ def hosvd_driver_rule(run, repo, tier):
                     chain.append(root)
                 pv = root.tags.get('prov') if isinstance(root, Arr) else None
                 if not (isinstance(pv, dict) and pv.get('svd') == last['uid'] and pv.get('role') == 'v'):
-                    (bad if isinstance(pv, dict) and 'svd' in pv else bad).append(f'V handed to the reduced matrix is {getattr(root, "origin", root)!s}, not the right factor of the last decomposition')
+                    # not a view of the right factor: a product of it with isometric factors of a pre-factorisation (v = w q^T) is the right factor of the unfolding as well
+                    nf = nearest_factors(V)
+                    if (last['uid'], 'v') in nf and all(role == 'q' for (uid_, role) in nf - {(last['uid'], 'v')}):
+                        pass
+                    elif any(role in ('s', 'u', 'r') for (uid_, role) in nf) or not nf:
+                        bad.append(f'V handed to the reduced matrix is computed from {sorted(str(x_) for x_ in nf) or getattr(root, "origin", root)}: not the right factor of the last decomposition')
+                    else:
+                        raise AnalysisError(f'{scen}: the matrix V handed to the reduced matrix is computed from {sorted(str(x_) for x_ in nf)} in a way this rule does not follow')
                 else:
                     if any(isinstance(c_, Arr) and (c_.buf.writes or c_.tags.get('stores') or c_.tags.get('inplace_ops')) for c_ in chain):
                         bad.append('the right factor V of the last decomposition is modified in place before it is handed to the reduced matrix (it is no longer an isometry)')
